@@ -19,7 +19,7 @@ import (
 
 type Stats struct {
 	paths, completed, infeasible, panics, unsupported, unwinds, outside, deadlocks int64
-	decisions, syntactic, smtQueries, unknownFeas                                  int64
+	decisions, syntactic, smtQueries, unknownFeas, guessed                         int64
 	assertsChecked, assertsSyntactic, assertsSMT, assertsUnknown                    int64
 	diffed, disagreements                                                          int64
 	steps                                                                          int64
@@ -45,6 +45,7 @@ type Config struct {
 	dumpQueries      bool
 	verbose          bool
 	witnessMax       int
+	guessTries       int
 	noNative         bool
 	stats            *Stats
 	deadline         time.Time
